@@ -359,6 +359,35 @@ def shape_schedules(rng, props, full=False):
     return out
 
 
+def forged_then_genuine(rng, props, n):
+    """Forged datagrams announcing sequence numbers the genuine peer has not used yet (garbage body, foreign key or another
+    session's key), then the genuine traffic: it must still be accepted (C07), in both directions."""
+    out = []
+    for i in range(n):
+        sc = NS("forged-%d" % i, props, max_clients=3)
+        sc.connect("c1", "T1", 11, 1)
+        sc.connect("c2", "T2", 22, 2)
+        sc.supdate(300)
+        far = rng.choice([False, False, True])
+        base = rng.choice([0, 2, 3])
+        seqs = [rng.choice([1 << 20, 1 << 40]) if far else base + k for k in range(rng.randint(1, 12))]
+        for s in seqs:
+            kind = rng.choice(["Payload", "KeepAlive", "Disconnect"])
+            tok = rng.choice(["T2", "nokey"])
+            sc.add(a="scraft", kind=kind, tok=tok, seq=str(s), tag=9000, len=8, **{"from": 1}, nonauth=True, shape="forged_seq", ctx="connected")
+            sc.add(a="ccraft", c="c1", kind=kind, tok=tok, dir="s2c", seq=str(s), tag=9001, len=8, nonauth=True, shape="forged_seq", ctx="client_connected")
+        for k in range(rng.randint(3, 8)):
+            nm = sc.name("g")
+            sc.cpayload("c1", 10, as_=nm)
+            sc.sdeliver(nm)
+            nm = sc.name("h")
+            sc.spayload(11, 10, as_=nm)
+            sc.cdeliver("c1", nm)
+        sc.pump(["c1", "c2"], dt=100, n=3)
+        out.append(sc.s)
+    return out
+
+
 def bit_schedules(rng, props, full=False):
     """Every bit position (sampled in the quick tier) and every truncation length of a sample datagram of every kind."""
     out = []
